@@ -23,7 +23,7 @@ func zzExactState(kind int, exactIEEEMinMax bool) (*DDSketchWithExactSummaryStat
 func zzC10Add(exactIEEE bool) {
 	zzvBound("add step", "sum/count run: arbitrary linked state (sparse stores M<=2 per side or empty), dyadic value, weight from {0, 1/2, 1, 3}; extremes run: state reached by zero or one earlier addition of an arbitrary trackable float64, then one addition of an arbitrary trackable float64 (all bit patterns)")
 	if exactIEEE {
-		zzvMapOrderFixed(true)
+		zzvMapOrders(2)
 		zzvExactFloatsOnly()
 		e := NewDDSketchWithExactSummaryStatistics(zzStub(1), store.SparseStoreConstructor)
 		st := e.summaryStatistics
@@ -114,7 +114,7 @@ func ZZ_C10_merge() {
 // quantile answers are the plain sketch's answers clamped to [min, max]
 func ZZ_C10_quantile_clamping() {
 	zzvBound("clamping", "inner answer, exact minimum and maximum over all float64 bit patterns (min <= max); q in {0, 1/4, 1/2, 1}")
-	zzvMapOrderFixed(true)
+	zzvMapOrders(2)
 	e, count := zzExactState(12, true)
 	zzvAssume(e.summaryStatistics.Count() == count)
 	zzvAssume(count > 0)
